@@ -300,9 +300,9 @@ func CheckC01(r *core.Run) {
 		}
 	}
 	r.AddEvals(int64(total))
-	r.Extra["crash_images_opened_by_real_code"] = total
-	r.Extra["distinct_recovery_observations"] = nrec
-	r.Extra["continuation_traces"] = len(conts)
+	r.SetExtra("crash_images_opened_by_real_code", total)
+	r.SetExtra("distinct_recovery_observations", nrec)
+	r.SetExtra("continuation_traces", len(conts))
 	sampleTrace(r, main)
 	for _, t := range main {
 		if t == nil {
@@ -324,7 +324,7 @@ judged:
 	// plain reopen judged by Recovered); deviations inside the situations of C08's known findings
 	// are reported there.
 	ftraces, fjobs := faultRuns(r, "c01-fault", r.Pick(2, 6), r.Pick(16, 60), false)
-	r.Extra["fault_runs"] = len(fjobs)
+	r.SetExtra("fault_runs", len(fjobs))
 	for _, t := range ftraces {
 		r.AddDistinct(fmt.Sprint(t.Meta))
 		r.AddEvals(int64(len(t.Events)))
